@@ -231,6 +231,12 @@ def canon_field(k, v):
         return _ERRITEM.sub(lambda m: m.group(1) + '*', v)
     if k in ('dec', 'struct') and v.startswith('err'):
         return 'err'
+    if k in ('readback', 'reimport'):
+        return v.split(':')[0]
+    if k == 'rewritten' and v.startswith(('ERR', 'REREAD')):
+        return v.split(':')[0]
+    if k == 'steps':
+        return ','.join(x.split(':')[0] for x in v.split(','))
     return v
 
 def ints(s):
